@@ -300,7 +300,7 @@ func (b *resourceHandler) applyRemove(r res.Resource, idx int) (interface{}, err
 	}
 
 	err := b.DB.Update(func(txn *badger.Txn) error {
-		var c []interface{}
+		var c []json.RawMessage
 		var dta []byte
 		rname := []byte(r.ResourceName())
 
